@@ -124,14 +124,14 @@ func (p *Prog) VerifyFunc(fi *FuncInfo, fc *FuncContract) (res *FuncResult) {
 			continue
 		}
 		env := x.newSpecEnv(s, s, fi.Pkg.PkgPath)
-		s.Assume(env.evalBool(ax.Clause.Expr))
+		s.Assume(env.assumption(ax.Clause.Expr))
 		x.assumeNote("axiom " + ax.Clause.Label + ": " + ax.Clause.Src)
 	}
 	// preconditions
 	for _, cl := range fc.Requires {
 		env := x.newSpecEnv(s, s, fi.Pkg.PkgPath)
 		env.pos = x.curPos
-		s.Assume(env.evalBool(cl.Expr))
+		s.Assume(env.assumption(cl.Expr))
 	}
 	x.entry = s.Clone()
 	x.cover(s, "pre", fi.Body.Lbrace)
@@ -215,7 +215,7 @@ func (x *fnv) checkPost(st *State, fr *frame, paramVals map[string]Value, idx in
 		if label == "" {
 			label = fmt.Sprintf("%d", i+1)
 		}
-		g := mkEnv().evalBool(cl.Expr)
+		g := mkEnv().goal(cl.Expr)
 		// do not let one postcondition help the next: check each against the same state
 		tmp := st.Clone()
 		x.oblige(tmp, "post", label, g, x.fi.Body.Rbrace, cl)
@@ -310,10 +310,10 @@ func (x *fnv) runAts(s *State, callee string) {
 			if label == "" {
 				label = sanitize(callee)
 			}
-			x.oblige(s, "assert", label, env.evalBool(at.Clause.Expr), x.curPos, at.Clause)
+			x.oblige(s, "assert", label, env.goal(at.Clause.Expr), x.curPos, at.Clause)
 		case "assume":
 			x.assumeNote("assumed at call " + callee + ": " + at.Clause.Src)
-			s.Assume(env.evalBool(at.Clause.Expr))
+			s.Assume(env.assumption(at.Clause.Expr))
 		case "ghost":
 			old, ok := s.ghost[at.Ghost]
 			if !ok {
@@ -442,7 +442,7 @@ func (p *Prog) VerifyLemma(lm *Lemma) (res *FuncResult) {
 		t := env.resolveType(b.Type)
 		env.vars[b.Name] = x.h.freshValue(s, t, "lem_"+b.Name)
 	}
-	g := env.evalBool(lm.Clause.Expr)
+	g := env.goal(lm.Clause.Expr)
 	x.oblige(s, "lemma", "", g, token.NoPos, lm.Clause)
 	return res
 }
